@@ -21,7 +21,7 @@ var c02Devs = []string{"LEN_BYTES", "ADDL_INT_VIA_FLOAT64", "INLINE_STRUCT_NO_AD
 func c02(ctx *Ctx) {
 	var cases []SCase
 	for _, sc := range leafFamily(ctx.Level) {
-		if sc.Axes["default"] == "true" || sc.Axes["pos"] == "allof" || sc.Axes["pos"] == "anyof" {
+		if sc.Axes["default"] == "true" || strings.HasPrefix(sc.Axes["pos"], "allof") || strings.HasPrefix(sc.Axes["pos"], "anyof") {
 			continue // defaults are C09's subject, composites C11's
 		}
 		sc.ID = "C02/" + sc.ID
